@@ -357,6 +357,10 @@ func (r *rateLimiter) DoAcquire(upstream string, acquireRequest *proxyv1alpha1.R
 		klog.V(2).Infof("[acquire] upstream=%q instance=%q id=%v: %v", upstream, acquireRequest.Spec.Instance, acquireRequest.Spec.RequestID, strings.Join(resultLogs, ","))
 	}
 
+	// a request proves the instance alive: what has just been counted for it stays reclaimable by the
+	// heartbeat timeout, also when a cleanup pass ran concurrently or this was the last thing it ever sent
+	r.clientCache.Heartbeat(acquireRequest.Spec.Instance)
+
 	return acquireRequest, nil
 }
 
